@@ -1,8 +1,8 @@
 package rules
 
 import (
-	"go/constant"
 	"fmt"
+	"go/constant"
 	"go/token"
 	"go/types"
 	"os"
@@ -32,8 +32,81 @@ func (c *Ctx) sameValue(a, b ssa.Value) bool {
 	if a == b || core.Unconv(a) == core.Unconv(b) {
 		return true
 	}
+	if sameCellLoads(core.Unconv(a), core.Unconv(b)) {
+		return true
+	}
 	pa, pb := c.accessPath(core.Unconv(a), 0), c.accessPath(core.Unconv(b), 0)
 	return pa == pb && !strings.Contains(pa, "val@") && pa != "?"
+}
+
+// sameCellLoads: a and b are loads of one local variable cell (a variable that lives in memory because a closure captures
+// it) that cannot have been reassigned between them: every store to the cell in the function dominates both loads, and no
+// closure that captures the cell stores to it.
+func sameCellLoads(a, b ssa.Value) bool {
+	ua, ok1 := a.(*ssa.UnOp)
+	ub, ok2 := b.(*ssa.UnOp)
+	if !ok1 || !ok2 || ua.Op != token.MUL || ub.Op != token.MUL || ua.X != ub.X {
+		return false
+	}
+	al, ok := ua.X.(*ssa.Alloc)
+	if !ok || al.Referrers() == nil {
+		return false
+	}
+	for _, ref := range *al.Referrers() {
+		switch x := ref.(type) {
+		case *ssa.Store:
+			if x.Addr != ssa.Value(al) {
+				return false // the address itself escapes into memory
+			}
+			sb := x.Block()
+			for _, ld := range []*ssa.UnOp{ua, ub} {
+				if sb == ld.Block() {
+					// the store must come first in the block
+					for _, ins := range sb.Instrs {
+						if ins == ssa.Instruction(ld) {
+							return false
+						}
+						if ins == ssa.Instruction(x) {
+							break
+						}
+					}
+				} else if !sb.Dominates(ld.Block()) {
+					return false
+				}
+			}
+		case *ssa.UnOp:
+		case *ssa.DebugRef:
+		case *ssa.MakeClosure:
+			body, _ := x.Fn.(*ssa.Function)
+			if body == nil {
+				return false
+			}
+			for k, bv := range x.Bindings {
+				if bv != ssa.Value(al) || k >= len(body.FreeVars) {
+					continue
+				}
+				fv := body.FreeVars[k]
+				if fv.Referrers() == nil {
+					continue
+				}
+				for _, r2 := range *fv.Referrers() {
+					switch y := r2.(type) {
+					case *ssa.UnOp, *ssa.DebugRef:
+					case *ssa.Store:
+						if y.Addr == ssa.Value(fv) {
+							return false
+						}
+						return false
+					default:
+						return false
+					}
+				}
+			}
+		default:
+			return false
+		}
+	}
+	return true
 }
 
 // leLenGuard reports whether block b is dominated by a branch edge that implies idx <= len(x) (strict=false) or idx < len(x) (strict=true).
@@ -279,6 +352,39 @@ func (d *discharger) dischargeBounds(s panicSite) (bool, string) {
 	case *ssa.IndexAddr:
 		if c.leLenGuard(x.Block(), x.Index, x.X, true) && (isConstNonNeg(x.Index)) {
 			return true, "index dominated by a comparison with len of the same value"
+		}
+		// x[len(x)-k], k >= 1, under a test that len(x)-k is not negative (or that len(x) >= k)
+		if bo, ok := core.Unconv(x.Index).(*ssa.BinOp); ok && bo.Op == token.SUB {
+			if k, isK := core.ConstInt(bo.Y); isK && k >= 1 {
+				if lv, isLen := lenOf(bo.X); isLen && (lv == x.X || c.sameValue(lv, x.X)) {
+					guarded := core.GuardedBy(x.Block(), func(cond ssa.Value) (bool, bool) {
+						v, onT, onF, ok := core.SignTest(cond)
+						if ok && (v == x.Index || v == ssa.Value(bo)) {
+							if onT == "nonneg" {
+								return true, true
+							}
+							if onF == "nonneg" {
+								return false, true
+							}
+						}
+						// len(x) >= k / len(x) > k-1 / len(x) != 0 (k == 1)
+						if cb, ok := cond.(*ssa.BinOp); ok && cb.X == bo.X {
+							if kk, isK2 := core.ConstInt(cb.Y); isK2 {
+								switch {
+								case cb.Op == token.GEQ && kk >= k, cb.Op == token.GTR && kk >= k-1, cb.Op == token.NEQ && kk == 0 && k == 1:
+									return true, true
+								case cb.Op == token.LSS && kk >= k, cb.Op == token.LEQ && kk >= k-1, cb.Op == token.EQL && kk == 0 && k == 1:
+									return false, true
+								}
+							}
+						}
+						return false, false
+					})
+					if guarded && c.noInterveningStore(s.fn, x, x.Index) {
+						return true, fmt.Sprintf("index is len-%d of the indexed value and is tested not to be negative", k)
+					}
+				}
+			}
 		}
 		if ok, why, listed := d.precondition(s); listed {
 			return ok, why
@@ -900,6 +1006,19 @@ func (d *discharger) dischargeBitfield(s panicSite) (bool, string) {
 		if upper && lower {
 			return true, "index is range-checked against Length() of the same list before the lookup"
 		}
+		// the index is the result of a search helper over the same list: it returns a negative constant or a position it
+		// compared with Length() of its list parameter; the caller tests it for non-negativity
+		if hc, ok := idx.(*ssa.Call); ok && lower {
+			if h := hc.Call.StaticCallee(); h != nil && len(h.Blocks) > 0 {
+				if _, isRepo := c.P.PkgOf(h); isRepo {
+					for li, a := range hc.Call.Args {
+						if li < len(h.Params) && c.sameValue(a, recv) && c.indexHelperInRange(h, li) {
+							return true, "index comes from " + h.Name() + ", which returns a negative constant or a position below Length() of the same list, and is tested to be non-negative"
+						}
+					}
+				}
+			}
+		}
 		return false, "index is not range-checked against Length() of the list (a nil element would be dereferenced)"
 	case "SetBytes":
 		arg := call.Call.Args[1]
@@ -1274,9 +1393,9 @@ func (c *Ctx) decreasingSelfRecursion(fn *ssa.Function) (bool, string) {
 				continue
 			}
 			// k = 8 - (x % 8)  => 1..8
-			if kb, ok := bo.Y.(*ssa.BinOp); ok && kb.Op == token.SUB {
+			if kb, ok := core.Unconv(bo.Y).(*ssa.BinOp); ok && kb.Op == token.SUB {
 				if c8, ok := core.ConstInt(kb.X); ok && c8 == 8 {
-					if rem, ok := kb.Y.(*ssa.BinOp); ok && rem.Op == token.REM {
+					if rem, ok := core.Unconv(kb.Y).(*ssa.BinOp); ok && rem.Op == token.REM {
 						if m, ok := core.ConstInt(rem.Y); ok && m == 8 {
 							dec = true
 						}
@@ -1386,12 +1505,22 @@ func (c *Ctx) classifyLoop(fn *ssa.Function, h *ssa.BasicBlock) (bool, string) {
 	// (2) iterator loop: condition is !it.Done() (or it.Done()) and every cycle calls it.Next()
 	if iff := core.BlockIf(h); iff != nil {
 		cond := iff.Cond
+		negated := false
 		if u, ok := cond.(*ssa.UnOp); ok && u.Op == token.NOT {
-			cond = u.X
+			cond, negated = u.X, true
 		}
 		if call, ok := cond.(*ssa.Call); ok {
 			name, recv := methodCall(call)
 			if name == "Done" && recv != nil {
+				// the body is entered while the iterator is NOT done: Next() on an exhausted typed-list iterator indexes past
+				// the end (and the loop would never look at a link of a non-empty list)
+				bodyIdx := 1 // `if Done() goto exit else body`
+				if negated {
+					bodyIdx = 0
+				}
+				if len(h.Succs) == 2 && !body[h.Succs[bodyIdx]] && body[h.Succs[1-bodyIdx]] {
+					return false, "the loop runs while Done() holds (inverted test): Next() is called on an exhausted iterator and no element of a non-empty list is visited"
+				}
 				// every path h -> h passes a Next() on the same iterator
 				if everyCyclePasses(h, body, func(ins ssa.Instruction) bool {
 					cl, ok := ins.(*ssa.Call)
@@ -1795,7 +1924,7 @@ func (c *Ctx) mayReturnNilOK(fn *ssa.Function) []int {
 					continue
 				}
 			}
-			if core.IsNilConst(rr[i]) && (errIdx < 0 || core.IsNilConst(rr[errIdx]) || !(core.ErrKnownNonNil(rr[errIdx], nil) || core.GuardedBy(ret.Block(), func(cond ssa.Value) (bool, bool) {
+			if (core.IsNilConst(rr[i]) || c.lazilySetField(fn, rr[i])) && (errIdx < 0 || core.IsNilConst(rr[errIdx]) || !(core.ErrKnownNonNil(rr[errIdx], nil) || core.GuardedBy(ret.Block(), func(cond ssa.Value) (bool, bool) {
 				x, trueMeansNil, ok := core.NilCmp(cond)
 				if !ok || x != rr[errIdx] {
 					return false, false
@@ -2136,4 +2265,83 @@ func (d *discharger) fanoutCheckedPositive() (bool, string) {
 		return false, "no check of the Fanout value (positive power of two) found in package hamt"
 	}
 	return true, ""
+}
+
+// indexHelperInRange: every return of h yields a negative constant, or a counter (from a non-negative start) whose return
+// is dominated by `v < Length()` of h's li-th parameter.
+func (c *Ctx) indexHelperInRange(h *ssa.Function, li int) bool {
+	if h.Signature.Results().Len() != 1 || !isIntegerType(h.Signature.Results().At(0).Type()) {
+		return false
+	}
+	list := ssa.Value(h.Params[li])
+	n := 0
+	for _, ret := range core.Returns(h) {
+		n++
+		v := core.Unconv(core.ResolvedResults(ret)[0])
+		if k, isK := core.ConstInt(v); isK {
+			if k < 0 {
+				continue
+			}
+			return false
+		}
+		if !isCounterFromNonNeg(v) {
+			return false
+		}
+		if !core.GuardedBy(ret.Block(), func(cond ssa.Value) (bool, bool) {
+			bo, isBin := cond.(*ssa.BinOp)
+			if !isBin || core.Unconv(bo.X) != v {
+				return false, false
+			}
+			lc, ok := core.Unconv(bo.Y).(*ssa.Call)
+			if !ok {
+				return false, false
+			}
+			name, lrecv := methodCall(lc)
+			if name != "Length" || !c.sameValue(lrecv, list) {
+				return false, false
+			}
+			switch bo.Op {
+			case token.GEQ:
+				return false, true
+			case token.LSS:
+				return true, true
+			}
+			return false, false
+		}) {
+			return false
+		}
+	}
+	return n > 0
+}
+
+// lazilySetField: v is a load of a nilable field of fn's receiver that no constructor initialises (every store to the
+// field is on an object that already exists: a memo filled in later, e.g. under a sync.Once) — the load can yield nil.
+func (c *Ctx) lazilySetField(fn *ssa.Function, v ssa.Value) bool {
+	u, ok := v.(*ssa.UnOp)
+	if !ok || u.Op != token.MUL || len(fn.Params) == 0 {
+		return false
+	}
+	fv := c.fieldOfAddr(fn, u.X)
+	if fv == nil || !nilable(fv.Type()) {
+		return false
+	}
+	nstores := 0
+	for _, f := range c.G.Funcs() {
+		for _, b := range f.Blocks {
+			for _, ins := range b.Instrs {
+				st, ok := ins.(*ssa.Store)
+				if !ok {
+					continue
+				}
+				if _, sf, ok := core.FieldAddrOf(st.Addr); !ok || sf != fv {
+					continue
+				}
+				nstores++
+				if _, fresh := rootObject(st.Addr); fresh && !core.IsNilConst(st.Val) {
+					return false
+				}
+			}
+		}
+	}
+	return nstores > 0
 }
